@@ -169,6 +169,8 @@ func init() {
 				w.RefreshMs = []int{0, -5, 1, 700, 1000, 1300}[r.Intn(6)]
 				in.Scripts = append(in.Scripts, w)
 			}
+			// every case observes at least one failing load (the stream's non-triviality rule)
+			in.Scripts[0].Script[0] = wStep{Err: true}
 			return in
 		},
 		Run: runGap,
